@@ -259,6 +259,20 @@ register('C09',
          'Coq proof (frame lemma per step + induction over the interleaving) + executed interleavings compared with solo runs',
          'DESIGN.md §7 C09')
 
+register('C05',
+         'PARTIAL. Coq theorems about the revert model (Reverter on the Article-Tag-Label shape, one level of relationships): a '
+         'non-delete version restores exactly its versioned columns, re-creating the entity if needed, and leaves the excluded column and '
+         'every other entity untouched; a delete version leaves the entity absent whether or not it was live; unnamed relationships are '
+         'untouched; named many-to-many links become exactly the targets the version shows; after a named one-to-many revert every tag '
+         'pointing at the article is one the version shows (children added since go away). Which children / links a version shows is C04; '
+         'that the revert is versioned like any other change is C01 on the recorded revert transaction. Histories are run on the real '
+         'code, a version (first / middle / last / delete; entity live or deleted) and a relationship subset are chosen, revert + commit '
+         'executed, and the live tables compared with the model and with the property clauses.',
+         COMMON_NOTE + 'Dotted relationship paths deeper than one level are not modelled nor generated (a cyclic dotted path over a '
+         'many-to-many pair is a suspected defect left undecided).',
+         'Coq proof (equational reasoning on the revert function) + vm_compute correspondence against version.revert()',
+         'DESIGN.md §7 C05')
+
 ALL = ['C%02d' % i for i in range(1, 21)]
 
 
